@@ -294,6 +294,10 @@ var goAwaySites = []struct{ prefix, tag string }{
 	{"wrong value for SETTINGS", "frame-error"},
 	{"SETTINGS_INITIAL_WINDOW_SIZE above maximum", "frame-error"},
 	{"invalid ping payload", "frame-error"},
+	{"WINDOW_UPDATE frame must be", "frame-error"},
+	{"RST_STREAM frame must be", "frame-error"},
+	{"GOAWAY frame shorter", "frame-error"},
+	{"PRIORITY frame must be", "frame-error"},
 }
 
 var codeTexts = []string{"No errors", "Protocol error", "Internal error", "Flow control error", "Settings timeout",
